@@ -1,5 +1,435 @@
-//! C12 harness — to be written (see /verif/mc/HARNESS_GUIDE.md).
+//! C12 — k-means centroids are cluster means; the BBD-tree assignment step equals exhaustive search.
+//!
+//! E1 over (data sequence, k, max_iter, seeding schedule): the two kinds of k-means++ draws (first
+//! index, D² cutoff) are answered through the `verif-hooks` seam. The cutoff is drawn from a grid of
+//! G mid-points with G >= ΣD² on integer lattices, so that every index the real RNG could select
+//! with positive probability is selected by at least one grid point (checked per draw by the
+//! harness's own D² bookkeeping); the thorough tier adds the two edge answers u = 0 and
+//! u = 1 - 2^-53. The assignment step is driven directly through `verif_hooks::bbd_clustering`
+//! with arbitrary centroid multisets.
+
+use mc_core::{self as mc, json, Harness, Job, Plan, Tier};
+use mc_sc::{dm, own_rng, release_rng, take_draws, Draw, RngMode};
+use smartcore::cluster::kmeans::{KMeans, KMeansParameters};
+use smartcore::linalg::naive::dense_matrix::DenseMatrix;
+use smartcore::verif_hooks as vh;
+
+struct C12;
+
+const GRID: usize = 64;
+
+fn d2(a: &[f64], b: &[f64]) -> f64 {
+    a.iter().zip(b).map(|(x, y)| (x - y) * (x - y)).sum()
+}
+
+/// Decode a point sequence: `dim`-dimensional points on the lattice {0..side-1}^dim.
+fn draw_points(job: &Job, n: usize, dim: usize, side: usize) -> Vec<Vec<f64>> {
+    // the job fixes the leading coordinates ("pre"), the rest are choices
+    let pre: Vec<usize> = job.params["pre"].as_array().map(|a| a.iter().map(|x| x.as_u64().unwrap() as usize).collect()).unwrap_or_default();
+    let mut it = pre.into_iter();
+    (0..n).map(|_| (0..dim).map(|_| it.next().unwrap_or_else(|| mc::choose(side)) as f64).collect()).collect()
+}
+
+/// All coordinate prefixes of the given length over 0..side.
+fn prefixes(len: usize, side: usize) -> Vec<Vec<usize>> {
+    let mut out = vec![Vec::new()];
+    for _ in 0..len {
+        out = out.into_iter().flat_map(|p| (0..side).map(move |c| { let mut q = p.clone(); q.push(c); q })).collect();
+    }
+    out
+}
+
+fn distinct_rows(p: &[Vec<f64>]) -> usize {
+    let mut v: Vec<Vec<u64>> = p.iter().map(|r| r.iter().map(|x| x.to_bits()).collect()).collect();
+    v.sort();
+    v.dedup();
+    v.len()
+}
+
+/// Candidate centroid coordinates per dimension: half-step grid over the lattice plus far points.
+fn centroid_grid(dim: usize, side: usize) -> Vec<Vec<f64>> {
+    let mut axis: Vec<f64> = (0..(2 * side - 1)).map(|i| i as f64 * 0.5).collect();
+    axis.push(-10.0);
+    axis.push(10.0);
+    if dim == 1 {
+        axis.iter().map(|x| vec![*x]).collect()
+    } else {
+        // 2-D: lattice points, cell centres, and four far points
+        let mut g = Vec::new();
+        for i in 0..(2 * side - 1) {
+            for j in 0..(2 * side - 1) {
+                if (i + j) % 2 == 0 {
+                    g.push(vec![i as f64 * 0.5, j as f64 * 0.5]);
+                }
+            }
+        }
+        g.push(vec![-10.0, -10.0]);
+        g.push(vec![10.0, 1.0]);
+        g.push(vec![1.0, 10.0]);
+        g
+    }
+}
+
+fn assignment_case(job: &Job) {
+    let (n, dim, side, k) = (job.u("n"), job.u("dim"), job.u("side"), job.u("k"));
+    let pts = draw_points(job, n, dim, side);
+    let grid = centroid_grid(dim, side);
+    // centroid multiset: non-decreasing index sequence
+    let mut cents: Vec<Vec<f64>> = Vec::new();
+    let mut lo = 0usize;
+    for _ in 0..k {
+        let c = lo + mc::choose(grid.len() - lo);
+        lo = c;
+        cents.push(grid[c].clone());
+    }
+    let x: DenseMatrix<f64> = dm(&pts);
+    let cents2 = cents.clone();
+    let Some(r) = mc::must_not_panic("bbd.clustering:lattice", &format!("points {:?} centroids {:?}", pts, cents), move || vh::bbd_clustering(&x, &cents2)) else { return };
+    let tol = 1e-12;
+    let mut want_dist = 0.0;
+    let mut ties = false;
+    for i in 0..n {
+        let ds: Vec<f64> = cents.iter().map(|c| d2(&pts[i], c)).collect();
+        let best = ds.iter().cloned().fold(f64::INFINITY, f64::min);
+        want_dist += best;
+        if ds.iter().filter(|d| (**d - best).abs() <= tol).count() > 1 {
+            ties = true;
+        }
+        let m = r.membership[i];
+        if m >= k {
+            mc::violation("bbd.clustering:membership-range", format!("points {:?} centroids {:?}: row {} attached to cluster {}", pts, cents, i, m));
+            return;
+        }
+        if ds[m] > best + tol * (1.0 + best) {
+            mc::violation(
+                "bbd.clustering:not-nearest",
+                format!("points {:?} centroids {:?}: row {} attached to centroid {} at d²={} but centroid at d²={} is nearer", pts, cents, i, m, ds[m], best),
+            );
+        }
+    }
+    for j in 0..k {
+        let members: Vec<usize> = (0..n).filter(|i| r.membership[*i] == j).collect();
+        if r.counts[j] != members.len() {
+            mc::violation("bbd.clustering:counts", format!("points {:?} centroids {:?}: count[{}]={} but {} rows attached", pts, cents, j, r.counts[j], members.len()));
+        }
+        for c in 0..dim {
+            let s: f64 = members.iter().map(|i| pts[*i][c]).sum();
+            if (r.sums[j][c] - s).abs() > 1e-9 * (1.0 + s.abs()) {
+                mc::violation("bbd.clustering:sums", format!("points {:?} centroids {:?}: sums[{}][{}]={} but attached rows sum to {}", pts, cents, j, c, r.sums[j][c], s));
+            }
+        }
+    }
+    if (r.distortion - want_dist).abs() > 1e-9 * (1.0 + want_dist) {
+        mc::violation("bbd.clustering:distortion", format!("points {:?} centroids {:?}: distortion {} but exhaustive search gives {}", pts, cents, r.distortion, want_dist));
+    }
+    if ties {
+        mc::count("assignment_ties");
+    }
+    if cents.windows(2).any(|w| w[0] == w[1]) {
+        mc::count("coincident_centroids");
+    }
+    if cents.iter().any(|c| c.iter().any(|x| x.abs() >= 10.0)) {
+        mc::count("far_centroids");
+    }
+    if distinct_rows(&pts) < n {
+        mc::count("duplicate_rows");
+    }
+    if r.counts.iter().any(|c| *c == 0) {
+        mc::count("empty_clusters");
+    }
+    mc::nontrivial();
+    mc::outcome(mc::hash::mix(mc::hash::h_usizes(&r.membership), mc::hash::h_f64s_rounded(&[r.distortion], 10)));
+    mc::describe(|| json!({"op": "bbd_clustering", "points": pts, "centroids": cents, "membership": r.membership, "counts": r.counts, "sums": r.sums, "distortion": r.distortion}));
+}
+
+fn check_model(site: &str, pts: &[Vec<f64>], k: usize, model: &KMeans<f64>, ctx: &str, queries: &[Vec<f64>]) -> Option<(Vec<Vec<f64>>, Vec<usize>)> {
+    let n = pts.len();
+    let dim = pts[0].len();
+    let v = serde_json::to_value(model).expect("serialise k-means");
+    let cents: Vec<Vec<f64>> = v["centroids"]
+        .as_array()
+        .map(|a| a.iter().map(|c| c.as_array().map(|r| r.iter().map(|x| x.as_f64().unwrap_or(f64::NAN)).collect()).unwrap_or_default()).collect())
+        .unwrap_or_default();
+    let y: Vec<usize> = v["_y"].as_array().map(|a| a.iter().map(|x| x.as_u64().unwrap_or(u64::MAX) as usize).collect()).unwrap_or_default();
+    let size: Vec<usize> = v["size"].as_array().map(|a| a.iter().map(|x| x.as_u64().unwrap_or(u64::MAX) as usize).collect()).unwrap_or_default();
+    if cents.len() != k || cents.iter().any(|c| c.len() != dim) {
+        mc::violation(format!("{}:centroid-count", site), format!("{}: {} centroids of dims {:?}, expected {} of dim {}", ctx, cents.len(), cents.iter().map(|c| c.len()).collect::<Vec<_>>(), k, dim));
+        return None;
+    }
+    if cents.iter().any(|c| c.iter().any(|x| !x.is_finite())) {
+        mc::violation(format!("{}:non-finite-centroid", site), format!("{}: centroids {:?}", ctx, v["centroids"]));
+        return None;
+    }
+    if y.len() != n || y.iter().any(|j| *j >= k) || size.len() != k {
+        mc::violation(format!("{}:assignment-shape", site), format!("{}: assignments {:?} sizes {:?}", ctx, y, size));
+        return None;
+    }
+    if size.iter().sum::<usize>() != n {
+        mc::violation(format!("{}:sizes-sum", site), format!("{}: sizes {:?} do not sum to n={}", ctx, size, n));
+    }
+    for j in 0..k {
+        let members: Vec<usize> = (0..n).filter(|i| y[*i] == j).collect();
+        if size[j] != members.len() {
+            mc::violation(format!("{}:size-mismatch", site), format!("{}: size[{}]={} but {} rows last assigned to it (assignments {:?})", ctx, j, size[j], members.len(), y));
+        }
+        if members.is_empty() {
+            mc::count("final_empty_cluster");
+            continue;
+        }
+        for c in 0..dim {
+            let m = members.iter().map(|i| pts[*i][c]).sum::<f64>() / members.len() as f64;
+            if (cents[j][c] - m).abs() > 1e-12 * (1.0 + m.abs()) {
+                mc::violation(format!("{}:centroid-not-mean", site), format!("{}: centroid {} = {:?} but the mean of its rows {:?} is {} in coordinate {}", ctx, j, cents[j], members, m, c));
+            }
+        }
+    }
+    // predict: nearest centroid (ties: any)
+    let q: DenseMatrix<f64> = dm(queries);
+    if let Some(res) = mc::must_not_panic(&format!("{}.predict", site), ctx, || model.predict(&q)) {
+        match res {
+            Err(e) => mc::violation(format!("{}.predict:error", site), format!("{}: {}", ctx, e)),
+            Ok(lab) => {
+                for (i, qrow) in queries.iter().enumerate() {
+                    let ds: Vec<f64> = cents.iter().map(|c| d2(qrow, c)).collect();
+                    let best = ds.iter().cloned().fold(f64::INFINITY, f64::min);
+                    let l = lab[i];
+                    let li = l as usize;
+                    if l < 0.0 || l.fract() != 0.0 || li >= k || ds[li] > best + 1e-12 * (1.0 + best) {
+                        mc::violation(format!("{}.predict:not-nearest", site), format!("{}: query {:?} labelled {} but nearest centroid of {:?} is at d²={}", ctx, qrow, l, cents, best));
+                        break;
+                    }
+                }
+            }
+        }
+    }
+    Some((cents, y))
+}
+
+fn queries_for(dim: usize, side: usize) -> Vec<Vec<f64>> {
+    if dim == 1 {
+        (0..(2 * side - 1)).map(|i| vec![i as f64 * 0.5]).collect()
+    } else {
+        let mut q = Vec::new();
+        for i in 0..(2 * side - 1) {
+            for j in 0..(2 * side - 1) {
+                q.push(vec![i as f64 * 0.5, j as f64 * 0.5]);
+            }
+        }
+        q
+    }
+}
+
+fn fit_case(job: &Job) {
+    let (n, dim, side, k) = (job.u("n"), job.u("dim"), job.u("side"), job.u("k"));
+    let edges = job.b("edges");
+    let pts = draw_points(job, n, dim, side);
+    if distinct_rows(&pts) < k {
+        mc::count("fewer_than_k_distinct_rows");
+        return;
+    }
+    let max_iter = mc::pick(&[1usize, 2, 100]);
+    let x: DenseMatrix<f64> = dm(&pts);
+    vh::set_unit_grid(GRID, edges);
+    own_rng(RngMode::All);
+    let r = mc::guard(|| KMeans::fit(&x, KMeansParameters::default().with_k(k).with_max_iter(max_iter)));
+    let draws = take_draws();
+    release_rng();
+    let first = draws.iter().find(|d| d.0 == Draw::KMeansFirst).map(|d| d.2);
+    let cut: Vec<usize> = draws.iter().filter(|d| d.0 == Draw::KMeansCutoff).map(|d| d.2).collect();
+    let zero_edge = cut.iter().any(|c| *c == GRID);
+    let one_edge = cut.iter().any(|c| *c == GRID + 1);
+    let class = if zero_edge { "cutoff-draw==0.0" } else if one_edge { "cutoff-draw==1-ulp" } else { "interior-schedule" };
+    let site = format!("kmeans.fit:{}", class);
+    let ctx = format!("rows {:?} k={} max_iter={} first-index draw {:?} cutoff draws {:?} (grid {}, {}=0.0, {}=1-2^-53)", pts, k, max_iter, first, cut, GRID, GRID, GRID + 1);
+    if draws.len() != k || first.is_none() {
+        mc::violation("kmeans.fit:seeding-draw-count", format!("{}: expected 1 first-index draw and {} cutoff draws, saw {:?}", ctx, k - 1, draws));
+    }
+    // covering claim of the grid: ΣD² after each selected centroid is at most GRID (integer lattice)
+    if n * dim * (side - 1) * (side - 1) > GRID {
+        panic!("harness: lattice too large for the cutoff grid (sum of D² may exceed the number of grid points)");
+    }
+    let model = match r {
+        Err(p) => {
+            mc::violation(format!("{}:panic", site), format!("{}: {}", ctx, p.brief()));
+            return;
+        }
+        Ok(Err(e)) => {
+            mc::violation(format!("{}:error", site), format!("{}: {}", ctx, e));
+            return;
+        }
+        Ok(Ok(m)) => m,
+    };
+    let q = queries_for(dim, side);
+    if let Some((cents, y)) = check_model(&site, &pts, k, &model, &ctx, &q) {
+        mc::nontrivial();
+        let mut flat: Vec<f64> = cents.iter().flatten().cloned().collect();
+        flat.iter_mut().for_each(|x| *x = mc::hash::round_sig(*x, 12));
+        mc::outcome(mc::hash::mix(mc::hash::h_f64s(&flat), mc::hash::h_usizes(&y)));
+        if zero_edge || one_edge {
+            mc::count("edge_schedules");
+        }
+        if max_iter == 100 {
+            mc::count("fits_to_convergence");
+        }
+        mc::describe(|| json!({"op": "KMeans::fit", "rows": pts, "k": k, "max_iter": max_iter, "first_index_draw": first, "cutoff_draws": cut, "grid": GRID, "centroids": cents, "assignments": y}));
+    } else {
+        mc::describe(|| json!({"op": "KMeans::fit", "rows": pts, "k": k, "max_iter": max_iter, "first_index_draw": first, "cutoff_draws": cut, "grid": GRID}));
+    }
+}
+
+/// Structured larger data sets (thorough): g clusters of m points each on a coarse lattice with
+/// exact duplicates; seeding schedules deviation-bounded.
+fn structured_points(variant: usize, n: usize, dim: usize) -> Vec<Vec<f64>> {
+    (0..n)
+        .map(|i| {
+            (0..dim)
+                .map(|c| match variant {
+                    0 => ((i % 4) * 10 + (i / 4) % 3 + c) as f64,                 // 4 blobs, duplicates
+                    1 => (i * (c + 1) % 17) as f64,                                 // stride-coprime lattice walk
+                    2 => if i % 2 == 0 { (i / 2) as f64 } else { 100.0 + (i / 2 % 5) as f64 }, // two far groups
+                    _ => ((i * i + c * 7) % 23) as f64,                            // quadratic residues
+                })
+                .collect()
+        })
+        .collect()
+}
+
+fn structured_case(job: &Job) {
+    let (n, dim, k, variant) = (job.u("n"), job.u("dim"), job.u("k"), job.u("variant"));
+    let pts = structured_points(variant, n, dim);
+    if distinct_rows(&pts) < k {
+        return;
+    }
+    let max_iter = mc::pick(&[1usize, 100]);
+    let x: DenseMatrix<f64> = dm(&pts);
+    vh::set_unit_grid(GRID, false);
+    own_rng(RngMode::Deviations);
+    let r = mc::guard(|| KMeans::fit(&x, KMeansParameters::default().with_k(k).with_max_iter(max_iter)));
+    let draws = take_draws();
+    release_rng();
+    let ctx = format!("structured variant {} n={} dim={} k={} max_iter={} draws {:?}", variant, n, dim, k, max_iter, draws.iter().map(|d| d.2).collect::<Vec<_>>());
+    let site = "kmeans.fit:structured";
+    match r {
+        Err(p) => mc::violation(format!("{}:panic", site), format!("{}: {}", ctx, p.brief())),
+        Ok(Err(e)) => mc::violation(format!("{}:error", site), format!("{}: {}", ctx, e)),
+        Ok(Ok(model)) => {
+            let q: Vec<Vec<f64>> = pts.iter().step_by(3).cloned().collect();
+            if let Some((cents, y)) = check_model(site, &pts, k, &model, &ctx, &q) {
+                mc::nontrivial();
+                mc::count("structured_fits");
+                let flat: Vec<f64> = cents.iter().flatten().map(|x| mc::hash::round_sig(*x, 12)).collect();
+                mc::outcome(mc::hash::mix(mc::hash::h_f64s(&flat), mc::hash::h_usizes(&y)));
+                mc::describe(|| json!({"op": "KMeans::fit", "structured_variant": variant, "n": n, "dim": dim, "k": k, "max_iter": max_iter, "draws": draws.iter().map(|d| d.2).collect::<Vec<_>>(), "centroids": cents}));
+            }
+        }
+    }
+}
+
+impl Harness for C12 {
+    fn id(&self) -> &'static str {
+        "C12"
+    }
+
+    fn plan(&self, tier: Tier, _seed: u64) -> Plan {
+        let t = tier.is_thorough();
+        let mut jobs = Vec::new();
+        // (a) assignment step
+        for k in [2usize, 3] {
+            for n in 1..=(if t { 5usize } else { 4 }) {
+                for pre in prefixes(n.saturating_sub(2).min(2), 4) {
+                    jobs.push(Job::new(format!("assign-1d-n{}-k{}-pre{:?}", n, k, pre), json!({"kind": "assign", "n": n, "dim": 1, "side": 4, "k": k, "pre": pre})));
+                }
+            }
+            for n in 1..=(if t { 4usize } else { 3 }) {
+                if !t && n == 3 && k == 3 {
+                    continue;
+                }
+                for pre in prefixes((2 * n).saturating_sub(2).min(3), 3) {
+                    jobs.push(Job::new(format!("assign-2d-n{}-k{}-pre{:?}", n, k, pre), json!({"kind": "assign", "n": n, "dim": 2, "side": 3, "k": k, "pre": pre})));
+                }
+            }
+        }
+        // (b) fit with every seeding schedule; large spaces are split into jobs by leading coordinates
+        for k in [2usize, 3] {
+            for n in k..=(if t { 5 } else { 4 }) {
+                let fix = if k == 3 { (n - 1).min(3) } else { (n - 2).min(2) };
+                for pre in prefixes(fix, 4) {
+                    jobs.push(Job::new(format!("fit-1d-n{}-k{}-pre{:?}", n, k, pre), json!({"kind": "fit", "n": n, "dim": 1, "side": 4, "k": k, "edges": t, "pre": pre})));
+                }
+            }
+            for n in k..=(if t { 4 } else { 3 }) {
+                let fix = if k == 3 { 3 } else { 2 };
+                for pre in prefixes(fix, 3) {
+                    // quick tier, k = 3: only sequences starting at the lattice origin
+                    if !t && k == 3 && (pre[0] != 0 || pre[1] != 0) {
+                        continue;
+                    }
+                    jobs.push(Job::new(format!("fit-2d-n{}-k{}-pre{:?}", n, k, pre), json!({"kind": "fit", "n": n, "dim": 2, "side": 3, "k": k, "edges": t, "pre": pre})));
+                }
+            }
+        }
+        if !t {
+            // the edge answers on the smallest instances only
+            jobs.push(Job::new("fit-1d-n3-k2-edges", json!({"kind": "fit", "n": 3, "dim": 1, "side": 4, "k": 2, "edges": true})));
+            jobs.push(Job::new("fit-1d-n3-k3-edges", json!({"kind": "fit", "n": 3, "dim": 1, "side": 3, "k": 3, "edges": true})));
+        }
+        // (c) structured, deviation-bounded seeding
+        let ns: &[usize] = if t { &[12, 40, 120, 300] } else { &[12, 40] };
+        for &n in ns {
+            for dim in [1usize, 2, 3, 6] {
+                for k in [2usize, 3, 5, 8] {
+                    for variant in 0..4usize {
+                        if !t && (dim == 6 || k == 8) && n > 12 {
+                            continue;
+                        }
+                        jobs.push(Job::new(format!("structured-v{}-n{}-d{}-k{}", variant, n, dim, k), json!({"kind": "structured", "n": n, "dim": dim, "k": k, "variant": variant})).with_dev_bound(if t { 2 } else { 1 }));
+                    }
+                }
+            }
+        }
+        Plan {
+            jobs,
+            budget_s: if t { 2400 } else { 40 },
+            case_deadline_ms: 20_000,
+            floors: vec![("assignment_ties", 1000), ("coincident_centroids", 1000), ("far_centroids", 1000), ("duplicate_rows", 1000), ("fits_to_convergence", 1000), ("edge_schedules", 10), ("structured_fits", 100)],
+            bounds: json!({
+                "assignment_step": "every point sequence n<=4 (5 thorough) on {0..3} and n<=3 (4) on the 3x3 lattice x every centroid multiset of size 2,3 from the half-step grid plus far points",
+                "fit": format!("every such sequence (quick tier, 2-D with k=3: those starting at the lattice origin) with >=k distinct rows x k in {{2,3}} x max_iter in {{1,2,100}} x every first-index draw x every cutoff draw on a {}-point grid (covers every index of positive weight); edge answers u=0 and u=1-2^-53 on all instances in the thorough tier, on two small families in the quick tier", GRID),
+                "structured": "4 families, n up to 40 (300 thorough), 1..6 dimensions, k up to 8, seeding schedules with at most 1 (2) non-default answers",
+            }),
+        }
+    }
+
+    fn run(&self, job: &Job) {
+        match job.kind() {
+            "assign" => assignment_case(job),
+            "fit" => fit_case(job),
+            "structured" => structured_case(job),
+            other => panic!("unknown job kind {}", other),
+        }
+    }
+
+    fn cleanup(&self) {
+        release_rng();
+    }
+
+    fn rule(&self) -> String {
+        "one execution = one (point sequence, centroid multiset) for the assignment step, or one (point sequence, k, max_iter, complete k-means++ answer sequence) for fit; executions on data with fewer than k distinct rows are skipped as outside the property's domain; non-trivial = the library returned a result that was checked; distinct = digest of (membership, distortion) / (centroids, assignments)".into()
+    }
+
+    fn assumptions(&self) -> Vec<String> {
+        vec![
+            format!("cutoff draws are taken from the {} grid mid-points (j+1/2)/{}: on the integer lattices used ΣD² <= {} so each index with positive selection probability is reached; draws between grid points select the same indices", GRID, GRID, GRID),
+            "the fitted model is read through its serde serialisation (fields centroids, _y, size)".into(),
+            "the RNG call sites of /repo/src equal /verif/rng_sites.allow (checked at start-up)".into(),
+        ]
+    }
+}
+
 fn main() {
-    eprintln!("MACHINERY-ERROR: harness C12 not built yet");
-    std::process::exit(2);
+    if let Err(e) = mc_sc::check_rng_sites() {
+        eprintln!("MACHINERY-ERROR: {}", e);
+        std::process::exit(2);
+    }
+    mc::main(C12)
 }
